@@ -195,6 +195,19 @@ HAND += [
     ["recover", ["grouparr", [MF, MF]], ["via", ["to", ["any"], "r"]]],
 ]
 
+# C11: memoized parsers nested in every position of a memoized parser's operand (first field, last field, both): the
+# table is keyed by an ADDRESS, so which of them collide is a matter of layout -- the ones that do are witnessed known
+# findings (known_findings.txt), the others must behave like their memo-free erasure
+JA, JB = ["just", ["a"]], ["just", ["b"]]
+HAND += [
+    ["memo", ["or", JA, ["memo", JB]]],
+    ["memo", ["then", ["ornot", JA], ["memo", JB]]],
+    ["memo", ["choice", [JA, JB, ["memo", ["any"]]]]],
+    ["memo", ["then", ["memo", JA], ["memo", JB]]],
+    ["memo", ["or", ["memo", ["just", ["a", "b"]]], JA]],
+    ["then", ["memo", ["or", JA, ["memo", JB]]], ["collect", ["rep", ["any"], 0, -1], "vec"]],
+]
+
 def existing():
     """the committed sample (harness/src/stat.rs ASTS): kept as it is, new shapes are appended (KEEP=0 draws afresh)"""
     path = os.path.join(ROOT, "harness", "src", "stat.rs")
